@@ -54,6 +54,7 @@ func c02One(ctx *vh.Ctx, c *c02Case) error {
 	var hyp struct {
 		WF  *bool `json:"wf"`
 		WF2 *bool `json:"wf2"`
+		WF3 *bool `json:"wf3"`
 	}
 	_ = json.Unmarshal(raw, &hyp)
 	if hyp.WF == nil || !*hyp.WF {
@@ -69,6 +70,8 @@ func c02One(ctx *vh.Ctx, c *c02Case) error {
 		return nil
 	}
 	ctx.Res.Dist("wf2-hypothesis=true")
+	// third hypothesis (dag_result_schedule_independent, Props/C03.lean): counted only
+	ctx.Res.Dist(fmt.Sprintf("wf3-hypothesis=%v", hyp.WF3 != nil && *hyp.WF3))
 	if impl.Result.Err != nil {
 		ctx.Res.Dist("result=" + impl.Result.Err.C)
 	} else {
